@@ -287,6 +287,12 @@ pub fn batch_atomicity(d: &Driver, b: usize, obs: &Obs) -> Option<String> {
         }
         let first = last + 1 - lens.len() as u64;
         let name = &d.names[*q];
+        // a completed delete_queue after the batch ended its incarnation: nothing of it may be
+        // expected, and equal-looking records (empty payloads) of a later incarnation are not its records
+        let deleted_since = d.steps.iter().enumerate().skip(i + 1).take_while(|(j, _)| *j < b).any(|(_, t)| matches!(&t.op, Op::Delete { q: dq } if dq == q) && !t.expected.is_err());
+        if deleted_since {
+            continue;
+        }
         let Some(oq) = obs.queues.get(name) else { continue };
         let recs: Vec<Rec> = lens.iter().enumerate().map(|(k, &l)| Rec::of(first + k as u64, &crate::model::payload(*uid, k as u32, l as usize))).collect();
         let present: Vec<bool> = recs.iter().map(|r| oq.recs.binary_search_by_key(&r.pos, |x| x.pos).ok().map(|ix| oq.recs[ix] == *r).unwrap_or(false)).collect();
